@@ -22,6 +22,7 @@ import Selene.Scope.RenameProof
 import Selene.Scope.CoreProof
 import Selene.Scope.ManualTableCloneRename
 import Selene.Generated.SpecialNames
+import Selene.Lints.RoactRename
 namespace Selene.Props.C14
 open Selene.Scope.Spec
 
@@ -123,6 +124,24 @@ example :
     ((loop "walked").map fun p => (p.1, p.2.2.text)) = some (.other, "copy") ∧
     (loop "pairs").isNone := by
   decide
+
+/-! ### a lint that remembers variable names: roblox_incorrect_roact_usage -/
+
+/-- **C14 (roblox_incorrect_roact_usage: only `Roact` and `React` are special).** For every chunk, every class table and every
+injective renaming of variables that leaves these two spellings alone, the lint makes the same reports — same places, same
+messages, same order — on the renamed chunk; the locals that stand for `createElement` (`local e = Roact.createElement`)
+may be called anything.  (The note of the `Name` report quotes source text and so mentions the new names; the end of an
+event report's range is found by bracket matching over the token texts, which renaming does not touch.) -/
+theorem C14_roact_reports_invariant {ρ : String → String} (h : Selene.Lints.Roact.Respectful ρ) (enabled : Bool)
+    (toks toks' : List String) (cs : Selene.Std.Roblox.Classes) (b : Selene.Lua.Block) :
+    (Selene.Lints.Roact.run enabled toks' cs (b.ren ρ)).map Selene.Lints.Roact.Diag.core =
+      (Selene.Lints.Roact.run enabled toks cs b).map Selene.Lints.Roact.Diag.core :=
+  Selene.Lints.Roact.run_ren h enabled toks toks' cs b
+
+example : Selene.Lints.Roact.Respectful (fun n => if n = "e" then "zq1v" else if n = "zq1v" then "e" else n) := by
+  refine ⟨?_, by decide, by decide⟩
+  intro a b h
+  by_cases ha : a = "e" <;> by_cases hb : b = "e" <;> by_cases ha' : a = "zq1v" <;> by_cases hb' : b = "zq1v" <;> simp_all
 
 /-! ### "the few names lints treat specially", read off the source on every run -/
 
